@@ -744,7 +744,14 @@ def expand_py_files_from_args(
         if isfile:
             result.append(pathname)
             continue
-        for f in reversed(pathname.list()):
+        try:
+            entries = pathname.list()
+        except OSError:
+            # An unreadable directory is reported like a bad argument; the
+            # other arguments are still processed.
+            on_error(pathname)
+            continue
+        for f in reversed(entries):
             # Check inclusions/exclusions for recursion.  Note that we
             # intentionally do this in the recursive step rather than the
             # base step because if the user specification includes
